@@ -42,6 +42,9 @@ def crate_for(repo, log):
         p = os.path.join(d, 'Cargo.toml')
         s = open(p).read().replace('path = "/repo"', 'path = "%s"' % repo)
         open(p, 'w').write(s)
+        # rsync keeps the source mtimes, which can be older than the copy's last build: make cargo look again
+        for f in os.listdir(os.path.join(d, 'src')):
+            os.utime(os.path.join(d, 'src', f), None)
     env = dict(os.environ, CARGO_NET_OFFLINE='true')
     p = subprocess.run(['cargo', 'build', '--offline'], cwd=d, env=env, capture_output=True, text=True)
     if p.returncode != 0:
